@@ -105,14 +105,67 @@ def r02_1b(ck, F):
         payload = b.expr(rv["ops"][rv["fields"].index("data")])
         buf = payload[2][0] if payload[0] == "call" and payload[1] == "bytes::Bytes::split_to" else None
         ok = False
+        # innermost program loop around the take: the non-emptiness fact must hold in *every* iteration
+        loops = [b.loop_blocks(h) for _, h in b.back_edges() if t in b.loop_blocks(h)]
+        loop = min(loops, key=len) if loops else None
         if buf is not None:
             for s, tb, v in controlling_edges(b, t):
                 e = switch_expr(b, s)
-                if e[:2] == ("call", "bytes::Bytes::is_empty") and mir.same_value(e[2][0], buf) and switch_meaning(b, s, v) is False:
+                if e[:2] == ("call", "bytes::Bytes::is_empty") and mir.same_value(e[2][0], buf) and switch_meaning(b, s, v) is False \
+                        and (loop is None or s in loop):
                     ok = True
-        ck.expect(ok, site + "#min-cost", "chunk taken from a buffer known to be non-empty",
-                  f"take({mir.show(amount)[:60]}) can be zero: the emit is not guarded by the buffer being non-empty",
-                  b.loc(t))
+        if ok or buf is None or loop is None:
+            ck.expect(ok, site + "#min-cost", "chunk taken from a buffer known to be non-empty in this iteration",
+                      f"take({mir.show(amount)[:60]}) can be zero: the emit is not guarded by the buffer being non-empty",
+                      b.loc(t))
+            continue
+        # counted loop (try_send): the buffer is non-empty at entry (outer guard) and the loop runs once per reserved
+        # permit; every iteration emits a non-empty chunk iff  #permits == ceil(len / split size bound)
+        entry_guard = any(switch_expr(b, s)[:2] == ("call", "bytes::Bytes::is_empty") and switch_meaning(b, s, v) is False
+                          for s, tb, v in controlling_edges(b, t))
+        nexts = [(q, tt) for q, tt in b.calls("std::iter::Iterator::next") if q in loop]
+        count = None
+        for q, tt in nexts:
+            for c in mir.calls_in(b.expr(tt["a"][0])):
+                if c[1].endswith("::try_reserve_many") or c[1].endswith("::reserve_many"):
+                    count = c[2][1]
+        at = payload[2][1]
+        if count is None or not entry_guard:
+            ck.bad(site + "#min-cost", f"take({mir.show(amount)[:60]}) can be zero: inside the loop the emit is not guarded by the "
+                   f"buffer being non-empty and no permit count bounds the iterations", b.loc(t))
+            continue
+
+        def leaf(n, cs):
+            def f(e):
+                if e[0] == "call" and e[1] == "bytes::Bytes::len":
+                    return n
+                if mir.last_field(e) == "chunk_size":
+                    return cs
+                return None
+            return f
+        cex = None
+        try:
+            for cs in range(1, 13):
+                for n in range(1, 49):
+                    # the split bound is min(len, chunk_size): frames needed = ceil(n / min-bound evaluated with len = n)
+                    bound = term_eval(at, leaf(10 ** 9, cs))
+                    want = -(-n // bound) if bound > 0 else None
+                    got = term_eval(count, leaf(n, cs))
+                    if want is None or got != want:
+                        cex = (n, cs, got, want)
+                        raise StopIteration
+        except StopIteration:
+            pass
+        except Unevaluable as ex:
+            ck.inconclusive(site + "#min-cost", f"permit count {mir.show(count)[:60]} / split bound {mir.show(at)[:60]} outside the "
+                            f"arithmetic fragment ({ex})", b.loc(t))
+            continue
+        ck.expect(cex is None, site + "#min-cost",
+                  f"permit count {mir.show(count)[:50]} = ceil(len / split bound) for all 1<=len<=48, 1<=chunk_size<=12",
+                  f"the loop emits one frame per reserved permit, but #permits = {mir.show(count)[:60]} differs from the number of "
+                  f"non-empty chunks: for len={cex[0] if cex else ''}, chunk_size={cex[1] if cex else ''} it is {cex[2] if cex else ''} "
+                  f"instead of {cex[3] if cex else ''} — the surplus frame is empty and is emitted with take(0)", b.loc(t),
+                  {"counterexample": {"len": cex[0], "chunk_size": cex[1], "permits": cex[2], "chunks": cex[3]} if cex else None})
 
 
 def r02_2(ck, F):
@@ -153,15 +206,37 @@ def r02_2(ck, F):
                 continue
             q, t = so[0]
             mp = b.expr(t["a"][1])
-            ok = mp[0] == "bin" and mp[1] == "Div" and const_value(mp[3]) == 4
-            leaves = _min_leaves(mp[2]) if ok else []
-            ok = ok and any(x[0] == "path" and x[1].endswith("chunk_size") for x in leaves) and \
-                any(mir.calls_in(x, AVAILABLE) for x in leaves)
+            # the bound as an arithmetic term over (chunk_size, available): 4 * max_ports must never exceed either
+            def leaf(cs, av):
+                def f(x):
+                    if mir.last_field(x) == "chunk_size":
+                        return cs
+                    if x[0] == "call" and x[1] == AVAILABLE:
+                        return av
+                    if x[0] == "call" and x[1].endswith("size_of"):
+                        return 4
+                    return None
+                return f
+            cex = None
+            try:
+                for cs in range(4, 41):
+                    for av in range(0, 41):
+                        v = term_eval(mp, leaf(cs, av))
+                        if 4 * v > min(cs, av) and cex is None:
+                            cex = (cs, av, v)
+                uses = {mir.last_field(x) for x in mir.walk(mp)} | {c[1] for c in mir.calls_in(mp)}
+                ok = cex is None and "chunk_size" in uses and AVAILABLE in uses
+            except Unevaluable:
+                ok = mp[0] == "bin" and mp[1] == "Div" and const_value(mp[3]) == 4
+                leaves = _min_leaves(mp[2]) if ok else []
+                ok = ok and any(x[0] == "path" and x[1].endswith("chunk_size") for x in leaves) and \
+                    any(mir.calls_in(x, AVAILABLE) for x in leaves)
             # the split is taken whenever len > max_ports
             ce = [switch_expr(b, s) for s, tb, v in controlling_edges(b, q)]
             guarded = any(e[0] == "bin" and e[1] == "Gt" and mir.calls_in(e[2], "std::vec::Vec::len") and mir.same_value(e[3], mp) for e in ce)
             ck.expect(ok and guarded, site, f"batch limited to {mir.show(mp)} ports",
-                      f"port batch bound {mir.show(mp)} is not min(chunk_size, available)/4 or not applied when exceeded",
+                      f"port batch bound {mir.show(mp)} is not min(chunk_size, available)/4 or not applied when exceeded"
+                      + (f": for chunk_size={cex[0]}, available={cex[1]} it allows {cex[2]} ports = {4 * cex[2]} bytes" if cex else ""),
                       b.loc(q))
 
 
